@@ -132,4 +132,22 @@ theorem C17_creating_created :
 `new_evolutions` of every task (it is created once and only ever extended).  Read from the source on every run. -/
 theorem C17_source_saved_all : DEvo.Generated.collectsAllNewEvolutions = true := by decide
 
+/-! ## a transaction that cannot be finished is not passed over in silence -/
+
+/-- "finishing the executor's transaction raised" -/
+def finishFailedStep (st : Bool) (ev : Event) : Bool :=
+  st || (match ev with | .raised n => hasSub "finish_transaction" n | _ => false)
+
+/-- **`SQLExecutor.__exit__`, every execution**: when finishing the last transaction fails (the COMMIT / RELEASE
+SAVEPOINT that ends the block), leaving the `with` block raises - the work that was announced with
+`applied_evolution` / `created_models` and is now rolled back cannot be followed by `evolved` -/
+theorem C17_executor_exit_propagates :
+    ∀ tr o, Exec Generated.sqlExecutorExit tr o →
+      Mon.run ⟨finishFailedStep⟩ false tr = true → o = .raised := by
+  intro tr o hex hst
+  have := reach_all ⟨finishFailedStep⟩ 8 Generated.sqlExecutorExit false
+    (fun o st => !st || o == .raised) (by decide) tr o hex
+  simp only [hst, Bool.not_true, Bool.false_or, beq_iff_eq] at this
+  exact this
+
 end DEvo.Props.C17
